@@ -132,13 +132,14 @@ def exec (g : CG) (inputs : Fld → Option CVal) : Json :=
   | none => Json.null
 
 /-- The signature instance for a list of generated definitions. -/
-def sig (defs : Array Def) : Sig :=
+def sig (defs : Array Def) (window : Option Nat := none) : Sig :=
   { Val := CVal, G := CG, Out := Json, View := Json, E := String
     HT := Nat × Nat, HV := List (Fld × CVal)
     ctor := ctor defs
     typeHash := fun c => (defs[c]?.map (·.source)).getD (2, c)
     valHash := id
     exec := exec
-    view := view }
+    view := view
+    window := window }
 
 end PydraModel.WfCache.Concrete
